@@ -12,7 +12,7 @@ timeout 2400 /venv/bin/python -m pytest -q -p no:cacheprovider --timeout=900 tes
 echo "tests=$(tail -1 /tmp/cf/$ID.tests.log)" >> $OUT
 grep -E "^FAILED" /tmp/cf/$ID.tests.log | sed 's/ - .*//' | tr '\n' ' ' >> $OUT; echo >> $OUT
 for c in $CHECKS; do
-  r=$(cd /verif && VERIF_REPO=$W VERIF_OUT=/tmp/cf/$ID.out timeout 1500 ./check $c 2>&1 | grep -E "^VIOLATION|^  signature" | head -4 | tr '\n' ' ')
+  r=$(cd /verif && VERIF_REPO=$W VERIF_OUT=/tmp/cf/$ID.out timeout 1500 ./check $c 2>&1 | grep -E "^VIOLATION|^  signature|HARNESS-ERROR" | head -4 | tr '\n' ' ')
   echo "check_$c=${r:-no violation}" >> $OUT
 done
 cd /; git -C /repo worktree remove --force $W; rm -rf /tmp/cf/$ID.out
